@@ -372,5 +372,6 @@ pub fn draw_history(rng: &mut ChaCha8Rng, p: &Profile, max_ops: usize) -> Scenar
         hash_key: rng.random(),
         history,
         faults,
+        steer: None,
     }
 }
